@@ -253,7 +253,11 @@ class IffContainerChunkMixin():
         if not self.__subchunks:
             next_offset = self.data_offset + self.__name_size
             while next_offset < self.offset + self.size:
-                self._fileobj.seek(next_offset)
+                try:
+                    self._fileobj.seek(next_offset)
+                except OverflowError:
+                    # chunk sizes that add up beyond what can be addressed
+                    break
                 try:
                     chunk = self.parse_next_subchunk()
                 except EmptyChunk:
